@@ -150,7 +150,24 @@ class Path:
             self.obligations.append(ob)
             return ob
         t0 = time.time()
-        r = self._check(z3.Not(goal), timeout_ms=self.ob_timeout_ms)
+        r = self._check(z3.Not(goal), timeout_ms=min(1500, self.ob_timeout_ms))
+        if r == z3.unknown:
+            # quick attempt failed: first the hypotheses connected to the goal only, then everything
+            s3 = z3.Solver()
+            s3.set("timeout", self.ob_timeout_ms)
+            s3.add(*self.relevant_facts(goal), z3.Not(goal))
+            t1 = time.time()
+            r3 = s3.check()
+            self.solver_time += time.time() - t1
+            if r3 == z3.unsat:
+                ob.time = time.time() - t0
+                ob.backend = "z3-" + z3.get_version_string() + "+cone-of-influence"
+                ob.status = "proved"
+                self.obligations.append(ob)
+                if assume_after:
+                    self.add_fact(goal)
+                return ob
+            r = self._check(z3.Not(goal), timeout_ms=self.ob_timeout_ms)
         ob.time = time.time() - t0
         ob.backend = "z3-" + z3.get_version_string()
         if r == z3.unsat:
@@ -164,13 +181,46 @@ class Path:
                 ob.model = None
         else:
             ob.status = "unknown"
-            s2 = z3.Solver()
-            s2.add(*self.perm, *self.temps, z3.Not(goal))
-            ob.smt2 = s2.to_smt2()
+            # retry with fewer hypotheses (sound: dropping hypotheses only weakens them)
+            for how, facts in (("cone-of-influence", self.relevant_facts(goal)),
+                               ("no-sequence-facts", [f for f in self.perm + self.temps if not _has_seq(f)])):
+                s3 = z3.Solver()
+                s3.set("timeout", self.ob_timeout_ms)
+                s3.add(*facts, z3.Not(goal))
+                t1 = time.time()
+                r3 = s3.check()
+                self.solver_time += time.time() - t1
+                if r3 == z3.unsat:
+                    ob.status = "proved"
+                    ob.backend += "+" + how
+                    break
+            if ob.status == "unknown":
+                s2 = z3.Solver()
+                s2.add(*self.perm, *self.temps, z3.Not(goal))
+                ob.smt2 = s2.to_smt2()
+            ob.time = time.time() - t0
         self.obligations.append(ob)
         if assume_after:
             self.add_fact(goal)
         return ob
+
+    def relevant_facts(self, goal: Any) -> List[Any]:
+        """Hypotheses connected to the goal through shared uninterpreted symbols (3 rounds)."""
+        facts = self.perm + self.temps
+        syms = [_symbols(f) for f in facts]
+        cur = _symbols(goal)
+        chosen = [False] * len(facts)
+        for _ in range(3):
+            grew = False
+            for k, s in enumerate(syms):
+                if not chosen[k] and (s & cur or not s):
+                    chosen[k] = True
+                    if not s <= cur:
+                        cur = cur | s
+                        grew = True
+            if not grew:
+                break
+        return [f for k, f in enumerate(facts) if chosen[k]]
 
     def render_model(self, m: Any) -> Dict[str, str]:
         out: Dict[str, str] = {}
@@ -181,6 +231,54 @@ class Path:
             except z3.Z3Exception:
                 pass
         return out
+
+
+_SYM_CACHE: Dict[int, Any] = {}
+
+
+def _symbols(t: Any) -> Any:
+    """Names of uninterpreted constants / functions occurring in a term."""
+    key = t.get_id()
+    if key in _SYM_CACHE:
+        return _SYM_CACHE[key]
+    out = set()
+    seen = set()
+    stack = [t]
+    while stack:
+        x = stack.pop()
+        i = x.get_id()
+        if i in seen:
+            continue
+        seen.add(i)
+        if z3.is_quantifier(x):
+            stack.append(x.body())
+            continue
+        if z3.is_app(x):
+            if x.decl().kind() == z3.Z3_OP_UNINTERPRETED:
+                out.add(x.decl().name())
+            stack.extend(x.children())
+    res = frozenset(out)
+    _SYM_CACHE[key] = res
+    return res
+
+
+def _has_seq(t: Any) -> bool:
+    seen = set()
+    stack = [t]
+    while stack:
+        x = stack.pop()
+        i = x.get_id()
+        if i in seen:
+            continue
+        seen.add(i)
+        if z3.is_quantifier(x):
+            stack.append(x.body())
+            continue
+        if z3.is_expr(x) and x.sort().kind() in (z3.Z3_SEQ_SORT, z3.Z3_RE_SORT):
+            return True
+        if z3.is_app(x):
+            stack.extend(x.children())
+    return False
 
 
 def model_value_to_str(v: Any) -> str:
